@@ -170,7 +170,7 @@ def strategy(tier, sub=None):
 
 
 def budget(tier, sub=None):
-    return {"examples": 6400 if tier == "quick" else 160000, "shards": 16}
+    return {"examples": 19200 if tier == "quick" else 160000, "shards": 16}
 
 
 def clear_caches():
